@@ -31,8 +31,21 @@ func SpecCtx(c iclient.CodegenClient) *codegen.CodeGenContext {
 //@ func (*ocodeClient).SetBitMode
 //@ props C17
 //@ requires c != nil && c.ctx != nil
-//@ ensures[set] c.ctx.BitMode == mode
-//@ assigns CodeGenContext.BitMode
+//@ ensures[set] c.ctx.BitMode == mode && c.bitMode == mode
+//@ assigns CodeGenContext.BitMode, ocodeClient.bitMode
+
+// Every emitted ocode records the mode in force at the time of the Emit call.
+//@ func (*ocodeClient).Emit
+//@ props C17 C14
+//@ requires c != nil
+//@ ensures[stamp] result0 == nil ==> len(c.Ocodes) == len(old(c.Ocodes))+1 && c.Ocodes[len(c.Ocodes)-1].BitMode == old(c.bitMode)
+//@ ensures[keep]  result0 != nil ==> len(c.Ocodes) == len(old(c.Ocodes))
+//@ assigns ocodeClient.Ocodes
+
+//@ func NewCodegenClient
+//@ props C17
+//@ option inline
+//@ ensures[mode] ctx != nil ==> result1 == nil && SpecCtx(result0) == ctx
 
 //@ func (*ocodeClient).SetSymbolTable
 //@ props C03
